@@ -93,6 +93,15 @@ def o_file(a):
             over.update(lv1a=True)
         if a.get('band'):          # the energy window of the simulation may be wider than the band the response matrix tabulates
             over.update(emin=a['band'][0], emax=a['band'][1])
+        if a.get('bkg_convolve'):
+            # the instrumental background with its (optional) energy smearing switched on: the Monte Carlo leg of the chain holds for those rows too
+            from ixpeobssim.srcmodel import import_roi
+            from ixpeobssim.srcmodel.bkg import xInstrumentalBkg
+            roi = import_roi(simdrive.config_path(a['config']))
+            for s_ in roi.values():
+                if isinstance(s_, xInstrumentalBkg):
+                    s_._convolve_energy = True
+            over.update(roi_model=roi)
         simdrive.simulate(simdrive.config_path(a['config']), path, du_id=a['du'], seed=a['seed'], **over)
         with fits.open(path) as h:
             ev, mc = h['EVENTS'].data, h['MONTE_CARLO'].data
@@ -193,6 +202,7 @@ def explore(chk, budget=1):
     run_oracle(chk, 'file', dict(config='toy_point_source.py', charging=False, du=int(g.integers(1, 4)), seed=int(g.integers(1, 10 ** 6)), duration=300.,
                                  band=(float(g.choice([0.5, 0.7])), float(g.choice([13., 14.5]))))) 
     run_oracle(chk, 'file', dict(config='toy_point_source_bkg.py', charging=False, du=int(g.integers(1, 4)), seed=int(g.integers(1, 10 ** 6)), duration=300., lv1a=True))
+    run_oracle(chk, 'file', dict(config='toy_point_source_bkg.py', charging=False, du=int(g.integers(1, 4)), seed=int(g.integers(1, 10 ** 6)), duration=3000., bkg_convolve=True))
     cfgs = [('toy_point_source.py', False), ('toy_point_source_bkg.py', False), ('toy_point_source.py', True)]
     if chk.tier != 'quick':
         cfgs += [('toy_multiple_sources.py', False), ('toy_disk.py', True)]
